@@ -20,6 +20,12 @@ Events (plain data, valid in a rebuilt world):
   ('task', 0)           the executor runs its next task (on_down, pool shutdown, _replace, reconnector, new pool ...)
   ('sched',)            the next scheduled task (reconnection attempt) falls due
   ('timer',)            the earliest connection timer (client-side request timeout) fires
+  ('switch', k)         the application issues its k-th switch (params 'switches' lists the target keyspaces); only
+                        after the previous switch completed and when the server holds nothing: the retry of a switch
+                        that failed (same target) or the next switch (other target)
+  ('orphan', host)      a request of the application to that host is not answered in time: the client-side timeout
+                        orphans its stream; with connection_class.orphaned_threshold = 1 the connection is now marked
+                        for replacement *while it stays open* (the next 'touch' makes HostConnection schedule _replace)
 Canonical state (KsWorld.canon): the USE future (done, exception type, retries, connection), session.keyspace, per
 pool (host, class, shut down, _keyspace, connection ids, _is_replacing / open_count / _scheduled_for_creation, trash
 size), per host (up, reconnecting), per connection (id, host, in_flight, closed, defunct, driver-side and server-side
@@ -34,14 +40,31 @@ from vt.core import HarnessError
 from vt.reqworld import FixedOrderPolicy, ScriptedRetryPolicy
 from vt.vthreading import WouldBlock
 from vt.world import wire
-from vt.world.vworld import World, VServer, HostSpec
+from vt.world.vworld import World, VServer, HostSpec, VConnection
 
 from cassandra.cluster import ExecutionProfile, EXEC_PROFILE_DEFAULT
 from cassandra.policies import ConvictionPolicy, ConstantReconnectionPolicy, HostDistance
 from cassandra.query import SimpleStatement
 
-NEW = 'ks2'
-USER_USE = 'USE %s' % NEW          # what the application / Session.set_keyspace sends (the pools send USE "ks2")
+NEW = 'ks2'                         # target of the (first) switch unless params['switches'] says otherwise
+
+
+def user_use(ks):
+    """what the application / Session.set_keyspace sends (the pools send USE "ks2", quoted)"""
+    return 'USE %s' % ks
+
+
+def use_target(q):
+    """keyspace named by a USE statement"""
+    return q.strip()[4:].strip().strip('"')
+
+
+SLOW = 'SELECT slow'
+
+
+class OrphanAtOnce(VConnection):
+    """connection class configured so that a single orphaned stream marks the connection for replacement"""
+    orphaned_threshold = 1
 
 
 class NeverConvict(ConvictionPolicy):
@@ -60,7 +83,9 @@ def addr(x):
 
 class KsWorld(object):
     """params: hosts, proto (4|2), core (v2 connections per host), ks0 (keyspace at connect or None),
-    convict (bool), entry ('use'|'set_keyspace'), timeout (None|float)"""
+    convict (bool), entry ('use'|'set_keyspace'), timeout (None|float), switches (target keyspace of every
+    switch of the application, default ('ks2',)), max_orphan (number of 'orphan' events; > 0 selects the
+    connection class with orphaned_threshold = 1)"""
 
     def __init__(self, params, issue=True):
         self.p = p = dict(params)
@@ -78,6 +103,11 @@ class KsWorld(object):
                       reconnection_policy=ConstantReconnectionPolicy(1.0, max_attempts=None))
             if not p.get('convict', True):
                 kw['conviction_policy_factory'] = NeverConvict
+            if p.get('max_orphan') or p.get('scenario') == 'replace-orphaned':
+                kw['connection_class'] = OrphanAtOnce
+            self.targets = tuple(p.get('switches') or (NEW,))
+            self.cur = -1               # index of the current switch
+            self.target = self.targets[0]
             self.cluster = self.w.make_cluster(**kw)
             if p.get('proto', 4) < 3 and p.get('core'):
                 self.cluster.set_core_connections_per_host(HostDistance.LOCAL, p['core'])
@@ -91,6 +121,8 @@ class KsWorld(object):
             self.failed = {}            # address -> set of failure kinds injected on that pool's USE
             self.answered = []          # (address, kind) of every pool USE answered / lost, in order
             self.n_defunct = 0
+            self.n_orphan = 0
+            self.earlier = []           # (target, outcome) of the switches before the current one
             self.situation = None       # pool situations when the switch reached the session
             self.probe_log = []         # (vid, address, server keyspace, driver-side keyspace)
             self.touched = []
@@ -111,7 +143,7 @@ class KsWorld(object):
         if req['op'] != 'QUERY':
             return False
         q = req.get('query', '')
-        if q == USER_USE:
+        if q == user_use(self.target) or q == SLOW:
             return True         # the application's statement (also when a task re-sends it to the next host)
         # USEs sent by a task are the blocking ones on a replacement connection / a new pool
         return not self.in_task and q.strip().upper().startswith('USE ')
@@ -123,8 +155,20 @@ class KsWorld(object):
 
     # ------------------------------------------------------------------ client operations
     def issue(self):
+        """The application issues its next switch.  The oracle memory about pool USEs starts afresh: the verdict on
+        a switch depends on what happened to the USEs of *that* switch."""
+        if self.future is not None:
+            out = self.outcome()
+            if out is None or self.pending():
+                raise HarnessError('next switch issued while the previous one is under way')
+            self.earlier.append((self.target, out[0] if out[0] == 'ok' else type(out[1]).__name__))
+        self.cur += 1
+        self.target = self.targets[self.cur]
+        self.failed = {}
+        self.answered = []
+        self.situation = None
         if self.p.get('entry', 'use') == 'use':
-            self.future = self.session.execute_async(USER_USE)
+            self.future = self.session.execute_async(user_use(self.target))
             return
         captured = []
         real = self.session.execute_async
@@ -135,9 +179,13 @@ class KsWorld(object):
             return f
         self.session.execute_async = capturing
         try:
-            self.session.set_keyspace(NEW)
+            self.session.set_keyspace(self.target)
         except WouldBlock:
             pass            # the caller is blocked in result(): the explorer now drives the switch
+        except Exception:
+            # the statement could not be sent to any host: set_keyspace has reported that error
+            if len(captured) != 1 or not captured[0]._event.is_set():
+                raise
         else:
             raise HarnessError('set_keyspace returned although every USE is held')
         finally:
@@ -159,6 +207,35 @@ class KsWorld(object):
             return ('error', e)
         return ('ok', None)
 
+    def can_switch(self):
+        return self.cur + 1 < len(self.targets) and self.future is not None and self.done() and not self.pending()
+
+    def orphan(self, hi):
+        """A request of the application to host hi is not answered within its timeout (the server never answers
+        it): the client gives up and the stream is orphaned on the connection that carried it."""
+        n0 = len(self.w.live_timers())
+        f = self.session.execute_async(SimpleStatement(SLOW), host=self.hosts[hi], timeout=0.001)
+        slow = [q for q in self.server.pending if q.req.get('query') == SLOW]
+        timer = f._timer
+        if len(slow) != 1 or timer is None or len(self.w.live_timers()) != n0 + 1:
+            raise HarnessError('orphan: expected one held request and its timer, got %r / %r' % (slow, timer))
+        self.server.pending.remove(slow[0])
+        self.w.fire_timer(timer)
+        if not f._event.is_set() or not slow[0].conn.orphaned_request_ids:
+            raise HarnessError('orphan: the request did not time out / no orphaned stream')
+        self.n_orphan += 1
+        self.touched.append(f)
+
+    def orphanable(self):
+        out = []
+        for i, h in enumerate(self.hosts):
+            pool = self.session._pools.get(h)
+            if pool is not None and not pool.is_shutdown and type(pool).__name__ == 'HostConnection':
+                cs = pool.get_connections()
+                if cs and not any(c.is_defunct or c.is_closed or c.orphaned_threshold_reached for c in cs):
+                    out.append(i)
+        return out
+
     def touch(self, hi):
         """Some other request of the application is routed to host hi."""
         h = self.hosts[hi]
@@ -176,9 +253,8 @@ class KsWorld(object):
     def pending(self):
         return sorted(self.server.pending, key=lambda q: q.seq)
 
-    @staticmethod
-    def is_initial(q):
-        return q.req.get('query') == USER_USE
+    def is_initial(self, q):
+        return q.req.get('query') == user_use(self.target)
 
     def pool_situations(self):
         out = {}
@@ -190,6 +266,8 @@ class KsWorld(object):
                 s = 'no-connection'
             elif any(c.is_defunct or c.is_closed for c in conns):
                 s = 'dead-connection'
+            elif any(c.orphaned_threshold_reached for c in conns):
+                s = 'orphaned-connection'
             else:
                 s = 'open'
             out[addr(h)] = s
@@ -197,19 +275,20 @@ class KsWorld(object):
 
     def respond(self, q, kind):
         a = addr(q.conn)
+        ks = use_target(q.req['query'])         # the server selects what the statement names
         if kind == 'set_ks':
             if self.situation is None:
                 self.situation = self.pool_situations()
-            q.conn.server_state['keyspace'] = NEW
-            self.server.respond(q, wire.OP_RESULT, wire.result_set_keyspace(NEW), deliver=True)
+            q.conn.server_state['keyspace'] = ks
+            self.server.respond(q, wire.OP_RESULT, wire.result_set_keyspace(ks), deliver=True)
         elif kind == 'ok':
-            q.conn.server_state['keyspace'] = NEW
+            q.conn.server_state['keyspace'] = ks
             self.answered.append((a, 'ok'))
-            self.server.respond(q, wire.OP_RESULT, wire.result_set_keyspace(NEW), deliver=True)
+            self.server.respond(q, wire.OP_RESULT, wire.result_set_keyspace(ks), deliver=True)
         elif kind == 'invalid':
             self.failed.setdefault(a, set()).add('invalid')
             self.answered.append((a, kind))
-            self.server.respond(q, wire.OP_ERROR, wire.error(wire.ERR_INVALID, "Keyspace '%s' does not exist" % NEW), deliver=True)
+            self.server.respond(q, wire.OP_ERROR, wire.error(wire.ERR_INVALID, "Keyspace '%s' does not exist" % ks), deliver=True)
         elif kind == 'server_error':
             self.failed.setdefault(a, set()).add('server_error')
             self.answered.append((a, kind))
@@ -254,7 +333,8 @@ class KsWorld(object):
         for i, h in enumerate(self.hosts):
             pool = self.session._pools.get(h)
             if pool is not None and not pool.is_shutdown and \
-                    any(c.is_defunct or c.is_closed for c in pool.get_connections()):
+                    any(c.is_defunct or c.is_closed or (c.orphaned_threshold_reached and not pool._is_replacing)
+                        for c in pool.get_connections()):
                 out.append(i)
         return out
 
@@ -288,14 +368,17 @@ class KsWorld(object):
                           len(pool._trash)))
         hosts = tuple((addr(h), h.is_up, h.is_currently_reconnecting()) for h in self.hosts)
         conns = tuple((c.vid, addr(c), c.in_flight, c.is_closed, c.is_defunct, c.keyspace, c.server_state.get('keyspace'),
-                       tuple(sorted(c._requests.keys()))) for c in self.w.conns)
+                       tuple(sorted(c._requests.keys())), c.orphaned_threshold_reached, tuple(sorted(c.orphaned_request_ids)))
+                      for c in self.w.conns)
         pend = tuple((q.conn.vid, q.stream, q.req.get('query', '')) for q in self.pending())
         now = self.w.clock.now
         sched = tuple(sorted((round(t[0] - now, 6), getattr(t[2][0], '__qualname__', repr(t[2][0]))) for t in self.w.sched_tasks))
         timers = tuple(round(t.end - now, 6) for t in self.w.live_timers())
         tasks = tuple(t[4] for t in self.w.tasks)
+        # earlier switches have been judged in earlier states; nothing of them but the driver state above lives on
         memory = (tuple(sorted((a, tuple(sorted(k))) for a, k in self.failed.items())), tuple(sorted(self.answered)),
-                  self.n_defunct, tuple(sorted(self.situation.items())) if self.situation else None)
+                  self.n_defunct, tuple(sorted(self.situation.items())) if self.situation else None,
+                  self.cur, self.n_orphan)
         return (fut, self.session.keyspace, tuple(pools), hosts, conns, pend, sched, timers, tasks, memory)
 
 
@@ -336,13 +419,26 @@ class H(explore.Harness):
                 evs.append((('respond', i, 'set_ks'), 0))
             else:
                 for kind in p['kinds']:
+                    if kind == 'invalid' and len(st.targets) > 1 and \
+                            q.conn.server_state.get('keyspace') == use_target(q.req['query']):
+                        # histories with several switches: a node does not reject the USE of the keyspace it
+                        # has selected on that very connection (checks/c20.py lists this with ctx.assume)
+                        continue
                     evs.append((('respond', i, kind), 0))
         if st.n_defunct < p.get('max_defunct', 1):
             for c in st.pool_conns():
-                if not (c.is_closed or c.is_defunct):
+                # (a connection marked for replacement is not lost as well before it has been replaced: any request
+                # routed to it, also a probe of the oracle, would spin in HostConnection.borrow_connection until its
+                # timeout, which never comes on the virtual clock)
+                if not (c.is_closed or c.is_defunct or c.orphaned_threshold_reached):
                     evs.append((('defunct', c.vid), 0))
+        if st.n_orphan < p.get('max_orphan', 0):
+            for hi in st.orphanable():
+                evs.append((('orphan', hi), 0))
         for hi in st.touchable():
             evs.append((('touch', hi), 0))
+        if st.can_switch():
+            evs.append((('switch', st.cur + 1), 0))
         if st.w.tasks:
             evs.append((('task', 0), 0))
         if st.w.sched_tasks:
@@ -364,7 +460,7 @@ class H(explore.Harness):
         return st.canon()
 
     def is_quiescent(self, st, evs):
-        return not [e for e, _ in evs if e[0] != 'defunct']
+        return not [e for e, _ in evs if e[0] not in ('defunct', 'orphan')]
 
     def apply(self, st, ev):
         k = ev[0]
@@ -375,6 +471,12 @@ class H(explore.Harness):
             st.defunct(ev[1])
         elif k == 'touch':
             st.touch(ev[1])
+        elif k == 'orphan':
+            st.orphan(ev[1])
+        elif k == 'switch':
+            if ev[1] != st.cur + 1 or not st.can_switch():
+                raise HarnessError('switch %r is not enabled here' % (ev,))
+            st.issue()
         elif k == 'task':
             st.run_task()
         elif k == 'sched':
@@ -397,22 +499,37 @@ class H(explore.Harness):
             raise HarnessError('default continuation does not quiesce after %r' % (hist,))
         judge(st, part, data, 'settled')
         out = st.outcome()
-        part.outcome((situation_label(st.situation), tuple(sorted(set(k for ks in st.failed.values() for k in ks))),
-                      'pending' if out is None else out[0] if out[0] == 'ok' else type(out[1]).__name__))
-        if st.situation is not None and (st.failed or situation_label(st.situation) != 'all-pools-open' or st.n_defunct):
+        key = (situation_label(st.situation), tuple(sorted(set(k for ks in st.failed.values() for k in ks))),
+               'pending' if out is None else out[0] if out[0] == 'ok' else type(out[1]).__name__)
+        if st.cur > 0:
+            key = (switch_label(st), 'earlier: ' + ','.join(o for _, o in st.earlier)) + key
+        part.outcome(key)
+        if st.situation is not None and (st.failed or situation_label(st.situation) != 'all-pools-open' or st.n_defunct
+                                         or st.n_orphan or st.cur > 0):
             part.mark_nontrivial(repr(st._canon_before_probe))
 
 
+def switch_label(st):
+    """'' for the first switch; for a later one whether it repeats the target of the one before it"""
+    if st.cur <= 0:
+        return ''
+    return 'later-switch-%s-target' % ('same' if st.targets[st.cur] == st.targets[st.cur - 1] else 'other')
+
+
 def judge(st, part, data, when):
+    """Verdict on the current (latest) switch; earlier ones were judged in the states before it was issued."""
     out = st.outcome()
+    sw = switch_label(st)
+    sw = sw and '/' + sw
     fails = sorted(set(k for ks in st.failed.values() for k in ks))
     if out is None:
         if when == 'settled':
             # (1) every held request answered, every task run, every scheduled task fired: nothing is
             # left that could complete the switch (a client-side timeout is not a completion of it)
-            part.violation('C20/never-completes/%s' % situation_label(st.situation),
-                           'the switch never completes: pool situations when the USE result reached the session: %r; '
-                           'pool USEs answered: %r; nothing is pending, queued or scheduled' % (st.situation, st.answered), data)
+            part.violation('C20/never-completes/%s%s' % (situation_label(st.situation), sw),
+                           'the switch to %r never completes: pool situations when the USE result reached the session: %r; '
+                           'pool USEs answered: %r; nothing is pending, queued or scheduled; earlier switches: %r'
+                           % (st.target, st.situation, st.answered, st.earlier), data)
         return
     if out[0] == 'error':
         # (3b, from the driver's own contract of _set_keyspace_for_all_pools: "a dictionary of all errors
@@ -422,26 +539,26 @@ def judge(st, part, data, when):
         if type(e).__name__ == 'ConnectionException' and msg.startswith('Failed to set keyspace on all hosts'):
             missing = [a for a in sorted(st.failed) if a not in msg]
             if missing:
-                part.violation('C20/error-omits-failing-pool', 'selecting the keyspace failed on %r but the reported error '
+                part.violation('C20/error-omits-failing-pool%s' % sw, 'selecting the keyspace failed on %r but the reported error '
                                'names only: %s' % (sorted(st.failed), msg[:300]), data)
         return
     # reported success
     if fails:
         # (3) one fingerprint per kind of failure that was swallowed
         for k in fails:
-            part.violation('C20/success-despite-failed-pool/%s' % k,
-                           'selecting the keyspace failed on %r (%r) but the switch reports success'
-                           % (sorted(st.failed), st.answered), data)
+            part.violation('C20/success-despite-failed-pool/%s%s' % (k, sw),
+                           'selecting the keyspace failed on %r (%r) but the switch to %r reports success; earlier switches: %r'
+                           % (sorted(st.failed), st.answered, st.target, st.earlier), data)
         return          # (2) is about switches that rightly report success
     for vid, a, server_ks, driver_ks in st.probe():
         age = 'new-connection' if vid >= st.base_vid else 'old-connection'
         part.count('probes_carried')
-        if server_ks != NEW:
-            part.violation('C20/stale-keyspace-after-success/%s/%s' % (age, situation_label(st.situation)),
-                           'after the switch reported success a request to %s was carried by connection #%d on which the '
-                           'server has keyspace %r selected (driver-side: %r); situations at the switch: %r'
-                           % (a, vid, server_ks, driver_ks, st.situation), data)
-        elif driver_ks != NEW:
+        if server_ks != st.target:
+            part.violation('C20/stale-keyspace-after-success/%s/%s%s' % (age, situation_label(st.situation), sw),
+                           'after the switch to %r reported success a request to %s was carried by connection #%d on which the '
+                           'server has keyspace %r selected (driver-side: %r); situations at the switch: %r; earlier switches '
+                           '(target, outcome): %r' % (st.target, a, vid, server_ks, driver_ks, st.situation, st.earlier), data)
+        elif driver_ks != st.target:
             part.count('probes_driver_view_differs')
 
 
@@ -487,6 +604,15 @@ def sched_harness(params, prefix, part):
             st.w.deliver_outbox()
             if st.session._pools[victim].get_connections() or not st.w.tasks:
                 raise HarnessError('setup: the victim pool still has a connection / no replacement task queued')
+        elif scenario == 'replace-orphaned':
+            # a request to the victim timed out on the client: its connection is over the orphaned-stream threshold
+            # and stays open; the pool schedules the replacement at the next request routed to it
+            c = st.session._pools[victim].get_connections()[0]
+            st.orphan(len(st.hosts) - 1)
+            st.touch(len(st.hosts) - 1)
+            st.w.deliver_outbox()
+            if st.session._pools[victim].get_connections() != [c] or c.is_closed or len(st.w.tasks) != 1:
+                raise HarnessError('setup: expected the open, marked connection and exactly the replacement task')
         elif scenario == 'renew':
             # the pool of the victim host is being (re)created, as after the host came back up
             st.session.remove_pool(victim)
@@ -497,7 +623,7 @@ def sched_harness(params, prefix, part):
                 raise HarnessError('setup: expected exactly the pool-creation task')
         else:
             raise HarnessError('unknown scenario %r' % (scenario,))
-        st.n_defunct = 0
+        st.n_defunct = st.n_orphan = 0
         st.issue()
         pend = st.pending()
         if len(pend) != 1 or not st.is_initial(pend[0]):
